@@ -15,6 +15,12 @@ PROPS = {
         rules=["NoPanic", "NameRef", "NameMustErr"],
         shards=12,
     ),
+    "C17": dict(
+        gen=[dict(module="Gen_NameText", cfg="Gen_NameText.cfg", cfg_thorough="Gen_NameText_thorough.cfg", out="text_cases.ndjson")],
+        topic="nametext",
+        rules=["NoPanic", "NameGrammar", "NameDisplay", "SuffixAlgebra"],
+        shards=12,
+    ),
     "C18": dict(
         mc=["MC_Codes"],
         topic="codes",
@@ -57,5 +63,15 @@ TEXT = {
               "model-checked to refine the reference decoder and never read out of bounds, with scaled constants."),
         note=_TRUSTED,
         technique="TLA+ Ref decoder + Impl loop refinement checked by TLC; TLC-generated buffers replayed into the crate; results validated by the trace spec",
+    ),
+    "C17": dict(
+        text=("Bounded-exhaustive: TLC enumerates every string up to length L (5 quick, 6 thorough) over "
+              "{a,A,1,-,_,.,\\,U+00E9}, checking the Ref-level identities (split/display idempotence, suffix algebra) "
+              "on each, and hands each to Name::new / Display / re-creation in the real crate; plus all label lengths "
+              "0..70 with boundary characters at first/middle/last position, encoded lengths 250..260, all 961 ordered "
+              "pairs of names over {a,b} for is_subdomain_of/without and all case variants of 'local'. TLC judges every "
+              "observation against NameText.tla in the trace specification."),
+        note=_TRUSTED,
+        technique="TLA+ grammar spec (NameText.tla), TLC-enumerated strings replayed into the crate, results validated by the trace spec",
     ),
 }
